@@ -272,10 +272,18 @@ pub(crate) fn lex_between<'a>(
                 continue 'outer;
             }
         }
-        if let Some(string_match) = STRING_RE.find(s) {
+        if let Some(string_captures) = STRING_RE.captures(s) {
+            let string_match = string_captures.get(0).unwrap();
             let text = string_match.as_str();
             let (line_number, column) = lp.from_offset(offset);
-            if text.ends_with('"') {
+
+            // Did we reach a closing doublequote, rather than the end
+            // of the input? The text alone can't tell us: `"` and
+            // `"a\"` end with a doublequote but aren't closed.
+            let is_closed = string_captures
+                .get(2)
+                .is_some_and(|closing| closing.as_str() == "\"");
+            if is_closed {
                 // Well-formed string literal. It may span several
                 // lines, so work out where it ends.
                 let (end_line_number, end_column) =
